@@ -10,8 +10,12 @@ Obs(o, gt, g) == [replies |-> {o[i][1] : i \in {j \in 1..Len(o) : o[j][2] = "tai
                   gated |-> gt,
                   exited |-> \A x \in G : g[x] \in {"exit", "none"}]
 
+\* TLCFP yields 32 bits: with 10^5 states two of them collide in most runs, and a collision merges two states
+\* of the dumped graph.  Two fingerprints of differently salted values give 64 bits.
+FP2(v) == <<TLCFP(v), TLCFP(<<"salt", v>>)>>
+
 EdgeDump == IF "GEN_OUT" \in DOMAIN IOEnv
-            THEN CSVWrite("%1$s", <<ToJson([f |-> TLCFP(View), a |-> last', t |-> TLCFP(View'),
+            THEN CSVWrite("%1$s", <<ToJson([f |-> FP2(View), a |-> last', t |-> FP2(View'),
                                             o |-> Obs(out', gated', gs')])>>, IOEnv.GEN_OUT)
             ELSE TRUE
 =============================================================================
